@@ -425,6 +425,13 @@ func runC07(t *Trace, r *Rng, tier string, _ []string) {
 		idx := newMemIndex(engine)
 		nDocs := r.Range(8, 30)
 		base := time.Date(1990+r.Intn(60), time.Month(1+r.Intn(12)), 1+r.Intn(28), r.Intn(24), r.Intn(60), r.Intn(60), 0, time.UTC).UnixNano()
+		// every third index lives at the far end of the representable range (2262): nanosecond counts there
+		// have the bit patterns of NaNs and infinities once they travel as float64
+		lateEdge := ix%3 == 2
+		const maxNs = int64(9223329599000000000) // 2262-04-11T11:59:59Z, query.MaxRFC3339CompatibleTime
+		if lateEdge {
+			base = maxNs - int64(35+r.Intn(20))*24*3600*1_000_000_000 - int64(r.Intn(1_000_000_000))
+		}
 		ns := make([]int64, nDocs)
 		batch := idx.NewBatch()
 		for d := 0; d < nDocs; d++ {
@@ -435,6 +442,12 @@ func runC07(t *Trace, r *Rng, tier string, _ []string) {
 				ns[d] = base + int64(r.Intn(2_000_000_000)) - 1_000_000_000
 			default:
 				ns[d] = base + (int64(r.Intn(2000))-1000)*3600*1_000_000_000
+			}
+			if lateEdge && r.Chance(15) {
+				ns[d] = 0x7FF0000000000000 + int64(r.Intn(5)) - 2 // around the bit pattern of +Inf
+			}
+			if ns[d] > maxNs-10 {
+				ns[d] = maxNs - 10 - int64(r.Intn(1000))
 			}
 			must(batch.Index(fmt.Sprintf("d%03d", d), map[string]interface{}{"t": time.Unix(0, ns[d]).UTC()}))
 		}
